@@ -127,6 +127,31 @@ def _strip_brackets(text):
     return re.sub(r"[()\s]", "", text)
 
 
+def _strip_signed_brackets(text):
+    """Remove (only) the grouping brackets that directly wrap a signed
+    operand, '(-x)' / '(+a(i) * y)', and all blanks. Brackets around
+    anything else (and argument / subscript lists) are kept: a line that
+    differs in those is NOT explained by the unary-minus bracketing
+    defect."""
+    import re
+    text = re.sub(r"\s+", "", text)
+    while True:
+        stack, drop = [], None
+        for pos, char in enumerate(text):
+            if char == "(":
+                stack.append(pos)
+            elif char == ")" and stack:
+                start = stack.pop()
+                grouping = start == 0 or not (text[start - 1].isalnum() or
+                                              text[start - 1] in "_%")
+                if grouping and text[start + 1:start + 2] in ("-", "+"):
+                    drop = (start, pos)
+                    break
+        if drop is None:
+            return text
+        text = text[:drop[0]] + text[drop[0] + 1:drop[1]] + text[drop[1] + 1:]
+
+
 def explain_changes(case):
     """Attribute every changed line (from the unified diff: '-' = only in
     W1, '+' = only in W2) to a known root cause. Returns a set of cause
@@ -149,11 +174,8 @@ def explain_changes(case):
         else:
             plus.append(text)
     if minus or plus:
-        if sorted(_strip_brackets(t) for t in minus) != \
-                sorted(_strip_brackets(t) for t in plus):
-            return None
-        if not any(re.search(r"-\s*\(?\s*-|\(-|-\d", t)
-                   for t in minus + plus):
+        if sorted(_strip_signed_brackets(t) for t in minus) != \
+                sorted(_strip_signed_brackets(t) for t in plus):
             return None
         causes.add("bracket")
     return causes or None
